@@ -23,6 +23,17 @@ def sha(s):
     return hashlib.sha256(s).hexdigest()[:16]
 
 
+DEFAULT_PARSERS = [
+    {"name": "glr", "kind": "glr"},
+    {"name": "lr", "kind": "lr", "opts": {"build_tree": True}},
+    {"name": "glr-prefixes", "kind": "glr", "opts": {"consume_input": False}},
+    {"name": "glr-recovery", "kind": "glr", "opts": {"error_recovery": True}},
+    {"name": "glr-lexdis", "kind": "glr", "ld": True},
+    {"name": "lr-prefix-recovery", "kind": "lr",
+     "opts": {"build_tree": True, "consume_input": False, "error_recovery": True}},
+]
+
+
 def build_item(item, tmpdir, full=False):
     from parglare import GLRParser, Grammar, Parser
     from parglare.closure import LR_0, LR_1
@@ -36,6 +47,16 @@ def build_item(item, tmpdir, full=False):
     try:
         if item.get("file"):
             g = Grammar.from_file(item["file"], _no_check_recognizers=True)
+        elif item.get("files"):
+            import shutil
+
+            d = os.path.join(tmpdir, "files")
+            shutil.rmtree(d, ignore_errors=True)
+            os.makedirs(d)
+            for name, text in item["files"].items():
+                with open(os.path.join(d, name), "w") as fh:
+                    fh.write(text)
+            g = Grammar.from_file(os.path.join(d, "g.pg"))
         else:
             recs = {k: pool.RECOGNIZERS[v] for k, v in (item.get("recs") or {}).items()}
             g = Grammar.from_string(item["text"], recognizers=recs or None)
@@ -73,18 +94,33 @@ def build_item(item, tmpdir, full=False):
             d["conflicts_full"] = conf
         out[key] = d
     if item.get("inputs") and not item.get("file"):
-        for kind in ("glr", "lr"):
+        from parglare.tables import create_table as _ct
+
+        for pc in item.get("parsers") or DEFAULT_PARSERS:
+            key = pc["name"]
             try:
-                cls = GLRParser if kind == "glr" else Parser
-                p = cls(g, **({"build_tree": True} if kind == "lr" else {}))
+                cls = GLRParser if pc["kind"] == "glr" else Parser
+                # a precomputed table keeps the table cache out of this check
+                lr = pc["kind"] == "lr"
+                kw = {}
+                if pc.get("ld") is not None:
+                    kw["lexical_disambiguation"] = pc["ld"]
+                elif not lr:
+                    kw["lexical_disambiguation"] = False
+                table = _ct(g, prefer_shifts=lr, prefer_shifts_over_empty=lr, **kw)
+                p = cls(g, table=table, **pc.get("opts", {}))
+                if lr and (table.sr_conflicts or table.rr_conflicts):
+                    out[key] = {"exc": "conflicts"}
+                    continue
             except Exception as e:
-                out[kind] = {"exc": type(e).__name__}
+                out[key] = {"exc": type(e).__name__}
                 continue
             res = []
             for x in item["inputs"]:
-                o = parse_outcome(p, x, ntrees=50)
+                o = parse_outcome(p, x, ntrees=50, with_errors=bool(pc.get("opts", {}).get(
+                    "error_recovery")))
                 res.append(o if full else sha(json.dumps(o, sort_keys=True)))
-            out[kind] = res
+            out[key] = res
     return out
 
 
